@@ -459,13 +459,18 @@ func factsOf(p *ast.Program) treeFacts {
 // classFor names the known-finding class whose predicate holds of the input tree, for
 // a failure observed under configuration c ("" = none).
 func (f treeFacts) classFor(c ccfg) string {
+	if f.danglingElse {
+		// assembled trees only: the parser never builds an if-with-else whose
+		// brace-less then-branch ends in an else-less if
+		return "dangling-else"
+	}
 	if !c.pretty {
 		return ""
 	}
 	if !c.semi && f.asiHazard {
 		return "nosemi-asi-hazard"
 	}
-	if !c.semi && f.nosemiElse {
+	if !c.semi && (f.nosemiElse || f.nestedElse) {
 		return "nosemi-else"
 	}
 	if f.backtickTrail {
